@@ -99,6 +99,127 @@ func VerifH_C15_sets() {
 	verifAssert(p.items[0].bytes.contains(b) == want, "set-membership")
 }
 
+// ---------- spec: set syntax (lstrlib classEnd / matchbracketclass) ----------
+
+// specSetEnd returns the index just after the ']' closing the set that starts
+// at p[i] == '[', or -1 when the set is not closed.  The first member (after
+// an optional '^') is taken literally, so a leading ']' is a member.
+func specSetEnd(p string, i int) int {
+	j := i + 1
+	if j < len(p) && p[j] == '^' {
+		j++
+	}
+	for {
+		if j >= len(p) {
+			return -1
+		}
+		c := p[j]
+		j++
+		if c == '%' && j < len(p) {
+			j++
+		}
+		if j < len(p) && p[j] == ']' {
+			return j + 1
+		}
+	}
+}
+
+func specSetMember(p string, i, ec int, c byte) bool {
+	k := i
+	sig := true
+	if p[k+1] == '^' {
+		sig = false
+		k++
+	}
+	for k++; k < ec; k++ {
+		if p[k] == '%' {
+			k++
+			if r, known := specClassLetter(p[k], c); known {
+				if r {
+					return sig
+				}
+			} else if p[k] == c {
+				return sig
+			}
+		} else if k+2 < ec && p[k+1] == '-' {
+			k += 2
+			if p[k-2] <= c && c <= p[k] {
+				return sig
+			}
+		} else if p[k] == c {
+			return sig
+		}
+	}
+	return !sig
+}
+
+// specSetDefined: the manual gives the set a meaning — every range is written
+// in ascending order between two plain characters (not starting at the leading
+// ']' that is a member by position, not touching a %-class: "the interaction
+// between ranges and classes is not defined").
+func specSetDefined(p string, i, ec int) bool {
+	k := i
+	if p[k+1] == '^' {
+		k++
+	}
+	first := k + 1
+	for k++; k < ec; k++ {
+		if p[k] == '%' {
+			k++
+			if k+1 < ec && p[k+1] == '-' {
+				return false // %x- : class followed by a hyphen that is not last
+			}
+		} else if k+2 < ec && p[k+1] == '-' {
+			if k == first && p[k] == ']' {
+				return false
+			}
+			if p[k+2] == '%' || p[k] > p[k+2] {
+				return false
+			}
+			k += 2
+		}
+	}
+	return true
+}
+
+func vhSetAlphabet(c byte) bool {
+	return c == ']' || c == '^' || c == '-' || c == '%' || c == 'a' || c == 'c'
+}
+
+// set syntax: "[" + up to 3 bytes over the alphabet ] ^ - % a c + "]", whenever
+// the manual's rules make that exactly one set: it compiles to one item whose
+// membership is the manual's, for every byte
+func VerifH_C15_set_syntax() {
+	n := 1 + verifChoose("n", 3)
+	body := nondetString("body", n)
+	for i := 0; i < n; i++ {
+		verifAssume(vhSetAlphabet(body[i]))
+	}
+	ptn := "[" + body + "]"
+	// stated restriction: the pattern is exactly one set (it closes at the last byte)
+	verifAssume(specSetEnd(ptn, 0) == len(ptn))
+	// and one the manual gives a meaning to
+	verifAssume(specSetDefined(ptn, 0, len(ptn)-1))
+	// ranges run a loop over their width in the implementation: keep them narrow
+	for i := 0; i+2 < len(ptn)-1; i++ {
+		if ptn[i+1] == '-' {
+			verifAssume(ptn[i+2] < ptn[i] || ptn[i+2]-ptn[i] <= 4)
+		}
+	}
+	b := nondetByte("b")
+	p, err := New(ptn)
+	verifAssert(err == nil && p != nil, "well-formed-set-compiles")
+	if err != nil || p == nil {
+		return
+	}
+	verifReach("set-compiled")
+	verifAssert(len(p.items) == 1 && p.items[0].ptnType == ptnOnce, "one-item")
+	if len(p.items) != 1 {
+		return
+	}
+	verifAssert(p.items[0].bytes.contains(b) == specSetMember(ptn, 0, len(ptn)-1, b), "set-membership-as-the-manual-prescribes")
+}
+
 // ---------- spec: matcher ----------
 
 const (
